@@ -386,8 +386,9 @@ def main(chk: Check):
              "least one negation; build: random chunk sequences; split: random package.use lines with "
              "-*, USE_EXPAND sections and invalid tokens")
     ok = chk.build(["C11/Prop_C11.vo"])
-    if ok:
-        chk.check_assumptions("C11/Prop_C11.v")
+    # Print Assumptions is re-checked in the background while the cases are generated and evaluated
+    bg = cf.ThreadPoolExecutor(max_workers=1)
+    fut_assumptions = bg.submit(chk.check_assumptions, "C11/Prop_C11.v") if ok else None
     chk.lint(["C11"])
     chk.check_fingerprint(ANCHORS)
     rng = chk.rng
@@ -777,7 +778,7 @@ def main(chk: Check):
          ["mismatches run_hist cases", "where_ (fun i r => negb (spec_hist_ok i r)) cases",
           "where_ (fun i _ => existsb (class_a_tight (fst i)) pkgs) cases",
           "where_ (fun i _ => existsb (class_b (fst i)) pkgs) cases",
-          "where_ (fun i _ => existsb (class_c (fst i)) pkgs) cases"], 260),
+          "where_ (fun i _ => existsb (class_c (fst i)) pkgs) cases"], 500),
         ("build", "list chunk * scope", build_cases, ["mismatches run_build cases"], 400),
         ("split", "list tok", split_cases,
          ["mismatches run_split cases", "where_ (fun i r => negb (spec_split_ok i r)) cases"], 400),
@@ -818,6 +819,9 @@ def main(chk: Check):
                                        "on which implementation results are wrong",
                                "only_coq": sorted(coq_fail - py_fail)[:5], "only_python": sorted(py_fail - coq_fail)[:5]},
                               no_input=True)
+    if fut_assumptions is not None:
+        fut_assumptions.result()
+    bg.shutdown()
     for u in unclassified[:3]:
         chk.violation("property", u)
     for s in split_bad[:3]:
